@@ -43,6 +43,10 @@ Layers (bound iteration by sequence length n):
            defined ( X ), defined<TAB>X} x context {bare, (..), ( .. ), ((..)), !(..), !..,
            (.. && 1), (1 && ..), (.. || 0), (0 || ..), (..) ? 1 : 0, !(..) || (1 && ..)} x
            X in {defined, undefined, defined empty, defined as another name, function-like}
+    hasinc  the same with __has_include spelled {(H), ( H), (H ), ( H ), (<TAB>H<TAB>),
+           __has_include (H), (MACRO), ( MACRO )} x H in {"present.h", <present.h>,
+           "sysonly.h", <sysonly.h> (only in the -S directory), "absent", <absent>} x
+           context {bare, !, && 1, (..), !( .. ) && 1}
     spell  core sequences with the directives spelled `  #   if\tc` / `#if /* #endif */ c // #else`
 """
 import functools
@@ -112,7 +116,26 @@ for _sn, _st in _DSP_SPELL:
             _v = True if _neg is None else (_val != _neg)
             DEFSPELL.append(("dsp.%s.%s.%s" % (_sn, _cn, _nn), _ct.replace("%s", _term),
                              (lambda v: (lambda s: v))(_v)))
-_EXTRA = SELFREF + NUMLIT + DEFSPELL
+# __has_include: spelling x header x context.  present.h lies beside the file (found with
+# quotes only), sysonly.h only in the directory given with -S / -isystem (found with both
+# forms), absent_verif_zz.h nowhere.
+_HI_HEADERS = [("q-present", '"present.h"', True), ("a-present", "<present.h>", False),
+               ("q-sys", '"sysonly.h"', True), ("a-sys", "<sysonly.h>", True),
+               ("q-absent", '"absent_verif_zz.h"', False), ("a-absent", "<absent_verif_zz.h>", False)]
+_HI_SPELL = [("compact", "__has_include(%s)"), ("lead", "__has_include( %s)"),
+             ("trail", "__has_include(%s )"), ("both", "__has_include( %s )"),
+             ("tab", "__has_include(\t%s\t)"), ("gap", "__has_include (%s)"),
+             ("macro", "__has_include(@HM%d)"), ("macro-sp", "__has_include( @HM%d )")]
+_HI_CTX = [("bare", "%s", False), ("not", "!%s", True), ("and1", "%s && 1", False),
+           ("paren", "(%s)", False), ("notparen", "!( %s ) && 1", True)]
+HASINC = []
+for _i, (_hn, _ht, _val) in enumerate(_HI_HEADERS):
+    for _sn, _st in _HI_SPELL:
+        _term = (_st % _i) if "%d" in _st else (_st % _ht)
+        for _cn, _ct, _neg in _HI_CTX:
+            HASINC.append(("hinc.%s.%s.%s" % (_sn, _hn, _cn), _ct % _term,
+                           (lambda v: (lambda s: v))(_val != _neg)))
+_EXTRA = SELFREF + NUMLIT + DEFSPELL + HASINC
 CTEXT = {n: t for n, t, _ in CONDS + _EXTRA}
 CEVAL = {n: f for n, _, f in CONDS + _EXTRA}
 
@@ -301,6 +324,8 @@ def directive_text(sym, K, spell=None):
     else:
         d, c = sym.split(":", 1)
         a = CTEXT[c]
+        for i in range(len(_HI_HEADERS)):
+            a = a.replace("@HM%d" % i, "HM%d_%s" % (i, K))
         for ph in ("AL", "DM", "UM", "EM", "FN", "Y", "X", "F", "A", "B"):   # longest first
             a = a.replace("@" + ph, ("Ya" if ph == "Y" else ph) + K)
     if spell == "ws":          # blanks before and after the #, tab before the arguments
@@ -318,6 +343,8 @@ def render(c, k):
     L = []
     if var.startswith("d"):
         L += ["#define A%s 2" % K, "#define B%s 1" % K]
+    if any(":hinc.macro" in sym for sym in seq):
+        L += ["#define HM%d_%s %s" % (i, K, h[1]) for i, h in enumerate(_HI_HEADERS)]
     if any(":dsp." in sym for sym in seq):
         L += ["#define DM%s 1" % K, "#define EM%s" % K, "#define AL%s UM%s" % (K, K),
               "#define FN%s(x) x" % K]
@@ -409,14 +436,15 @@ def run_file(cfg, name, cases, timeout):
     with open(os.path.join(d, fname), "w") as f:
         f.write(text)
     # --- oracle
-    g = tools.run(["gcc", "-E", "-P", "-x", "c++", "-std=" + STD, "-w", fname], cwd=d, timeout=120)
+    g = tools.run(["gcc", "-E", "-P", "-x", "c++", "-std=" + STD, "-w", "-isystem", "sysinc", fname],
+                  cwd=d, timeout=120)
     if g.timeout or g.rc != 0:
         raise HarnessError("oracle gcc rejects %s (reference model and gcc disagree on a kept "
                            "group, or a generator bug): %s" % (fname, g.brief()))
     _, gc, gorder = tok.split_cases(tok.tokenize(g.out))
     # --- interrogate
     b = cfg["rel"]
-    r = tools.run([b["parse_file"], "-E", fname], cwd=d, timeout=timeout, b=b)
+    r = tools.run([b["parse_file"], "-E", "-S", "sysinc", fname], cwd=d, timeout=timeout, b=b)
     crashed = r.timeout or r.rc is None or r.rc < 0 or r.rc not in (0, 1)
     _, ic, iorder = tok.split_cases(tok.tokenize(r.out))
     complete = (not crashed) and iorder[-1:] == [0]
@@ -424,7 +452,7 @@ def run_file(cfg, name, cases, timeout):
     asan_bad = None
     if cfg.get("asan") and not crashed:
         ba = cfg["asan"]
-        ra = tools.run([ba["parse_file"], "-E", fname], cwd=d, timeout=timeout * 5, b=ba)
+        ra = tools.run([ba["parse_file"], "-E", "-S", "sysinc", fname], cwd=d, timeout=timeout * 5, b=ba)
         if ra.timeout or ra.sanitizer or ra.rc not in (0, 1) or ra.out != r.out:
             asan_bad = {"rc": ra.rc, "timeout": ra.timeout, "stderr_tail": ra.err[-1200:],
                         "same_output": ra.out == r.out}
@@ -548,6 +576,7 @@ def layers_for(tier):
             plan.append((n, "selfref", lambda n=n: dev1(core(n), [c for c, _, _ in SELFREF])))
             plan.append((n, "numlit", lambda n=n: dev1(core(n), [c for c, _, _ in NUMLIT])))
             plan.append((n, "defspell", lambda n=n: dev1(core(n), [c for c, _, _ in DEFSPELL])))
+            plan.append((n, "hasinc", lambda n=n: dev1(core(n), [c for c, _, _ in HASINC])))
         if n <= nspell:
             plan.append((n, "spell", lambda n=n: core(n)))
     return plan
@@ -569,6 +598,8 @@ def explore(ck):
         raise HarnessError("oracle tool gcc missing")
     cfg = {"dir": ck.scratch(), "rel": rel, "asan": asan, "keep": ck.keep}
     open(os.path.join(cfg["dir"], "present.h"), "w").close()
+    os.makedirs(os.path.join(cfg["dir"], "sysinc"), exist_ok=True)
+    open(os.path.join(cfg["dir"], "sysinc", "sysonly.h"), "w").close()
     if ck.replay:
         return replay(ck, cfg)
     head = tools.run(["git", "-C", rel["repo"], "rev-parse", "--short", "HEAD"]).out.strip()
@@ -677,7 +708,8 @@ def report(ck, cfg, c, k, v):
               "case": c, "k": k, "file": "\n".join(lines) + "\nint __case_0__;\n",
               "diags": v.get("diags"), "tool": v.get("tool"), "asan": v.get("asan"),
               "cmd": "parse_file -E case.h  vs  gcc -E -P -x c++ -std=%s -w case.h "
-                     "(an empty present.h beside it)" % STD}
+                     "(an empty present.h beside it; -S sysinc / -isystem sysinc with an empty "
+                     "sysinc/sysonly.h)" % STD}
 
     def again():
         return run_single(cfg, c, k, 100, tag="c")["status"] in BAD
